@@ -107,6 +107,17 @@ var c05Templates = []string{
 	"return class { static x = $0; static [$1] = 2 };",
 	"return new class { x = $0; y = this.x; [$1] = 2 };",
 	"return (class { static #p = $0; static g() { return delete this.#p?.x } }).g();",
+	"class K { #x = 1; m() { [this.#x = $0] = []; return this.#x } } return new K().m();",
+	"class K { #x = 1; m() { [this.#x = $0] = [$1]; return this.#x } } return new K().m();",
+	"class K { #x = 1; m() { ({a: this.#x = $0} = {}); return this.#x } } return new K().m();",
+	"class K { #x = 1; m() { [this.#x] = [$0]; return this.#x } } return new K().m();",
+	"class K { #x = 1; m() { ({a: this.#x} = {a: $0}); return this.#x } } return new K().m();",
+	"class K { #x = 1; m() { ({...this.#x} = {a: $0}); return this.#x } } return new K().m();",
+	"class K { #x = 1; m() { [...this.#x] = [$0]; return this.#x } } return new K().m();",
+	"class K { #x = 1; m() { [[this.#x = $0]] = [[]]; return this.#x } } return new K().m();",
+	"class K { static #x = 1; static m() { [K.#x = $0] = []; return K.#x } } return K.m();",
+	"class A { set y(v) { this.yy = v } } class B extends A { m() { [super.y = $0] = []; return this.yy } } return new B().m();",
+	"class A { set y(v) { this.yy = v } } class B extends A { m() { ({a: super.y = $0} = {}); return this.yy } } return new B().m();",
 	// async / generators
 	"return (async () => [this === undefined, await $0])();",
 	"return (async function() { return [this, arguments[0], await $0] }).call(a, $1);",
